@@ -20,7 +20,7 @@ try:
     r = sh("git -C /repo worktree add -q %s HEAD" % wt)
     assert r.returncode == 0, r.stdout
     src = open(demo).read()
-    src = re.sub(r"/tmp/mut[23456]?/[A-Z]\d*", wt, src)
+    src = re.sub(r"/tmp/mut[234567]?/[A-Z]\d*", wt, src)
     dpath = os.path.join(wt, "_demo.py")
     open(dpath, "w").write(src)
     env = dict(os.environ); env["PYTHONPATH"] = wt; env["PYTHONDONTWRITEBYTECODE"] = "1"
